@@ -644,7 +644,14 @@ def r27_every_element(c, facts, rule='C02.R27'):
         fn = facts.normalised(c.anchor(R, 'oal_compiler::eval::' + short))
         loops = [(b, t) for b, t in P.call_blocks(fn, 'Iterator::next') if item in fn.mir['locals'][t['dest']['l']]['ty']]
         if not loops:
-            c.skip(R, short, 'no loop over %s items (an iterator chain is read by the other rules of C02)' % item)
+            # `children.map(|x| ..).collect()`: an element per child by construction, unless the chain filters
+            n += 1
+            plain = facts.fns.get(fn.id, fn)
+            filt = sorted({P.strip((callee_of(tt) or {}).get('def', '')).split('::')[-1] for g in [fn] + [x for x in facts.closures_of(plain) if x.mir] for _, tt in g.calls()} & {'filter', 'filter_map', 'skip', 'skip_while', 'take', 'take_while', 'step_by', 'flat_map', 'flatten'})
+            if filt:
+                c.skip(R, short, 'no loop over %s items, and the iterator chain uses %s' % (item, filt))
+            else:
+                c.ok(R, {'fn': short, 'items': item, 'form': 'iterator chain without a filtering adaptor'})
             continue
         stores = {bb for bb, tt in fn.calls() if callee_of(tt) and P.strip(callee_of(tt)['def']).split('::')[-1] in ('push', 'insert', 'extend', 'index_mut', 'insert_full', 'push_back')}
         err = P.err_blocks(fn)
